@@ -173,6 +173,16 @@ def _tagkind_catalogue():
             out.append("R: !record\n  fields:\n    f: !map {keys: %s, values: int}\n" % v)
             out.append("R: !record\n  fields:\n    f: !union {a: %s, b: int}\n" % v)
             out.append("R: !record\n  fields:\n    f: !union %s\n" % v)
+    # a type written as a sequence of one element ("a union of one type"), around every kind of type, wherever a type can stand: whatever the validator makes
+    # of it, no later pass may assume that the element is a plain name
+    for inner in ["int", "int*", "'int[2]'", "'int[]'", "string->int", "Rec1", "!vector {items: int}", "!array {items: int}", "[int]", "int?", "!stream {items: int}"]:
+        t1 = "[%s]" % inner
+        rec = "Rec1: !record\n  fields:\n    q: int\n"
+        for use in ["R: !record\n  fields:\n    f: %s\n", "R: !record\n  fields:\n    f: !union {v: %s, s: string}\n", "R: !record\n  fields:\n    f: [%s, string]\n",
+                    "R: !record\n  fields:\n    f: !vector {items: %s}\n", "R: !record\n  fields:\n    f: !map {keys: string, values: %s}\n", "R: !record\n  fields:\n    f: [null, %s]\n",
+                    "P: !protocol\n  sequence:\n    s: %s\n", "P: !protocol\n  sequence:\n    s: !stream {items: %s}\n", "X: %s\n",
+                    "'G<T>': !record\n  fields:\n    a: T\nR: !record\n  fields:\n    f: !generic {name: G, args: [%s]}\n"]:
+            out.append(rec + use % t1 + ("P2: !protocol\n  sequence:\n    r: R\n" if use.startswith("R:") else ""))
     # reference cycles between aliases, used where a pass unwraps aliases
     cyc = "CyA: CyB\nCyB: CyA\n"
     for use in ["R: !record\n  fields:\n    f: !map {keys: CyA, values: int}\n", "R: !record\n  fields:\n    f: !map {keys: string, values: CyA}\n",
